@@ -38,8 +38,8 @@ TRUST = [
     "np.random re-seeded before every call on each side; MD3 with a linear SVC and KFold(random_state=42) is deterministic",
 ]
 GARBAGE = 987654.25
-LAYOUTS_ARR = ("C", "F", "strided")
-LAYOUTS_DF = ("df-single", "df-mixed")
+LAYOUTS_ARR = ("C", "F", "strided", "ro-view")
+LAYOUTS_DF = ("df-single", "df-mixed", "df-zerocopy")
 
 
 # ------------------------------------------------------------------ fingerprints
@@ -75,7 +75,18 @@ def make(layout, M, names=None, ints=False):
         base[1::2, 1::2][:r, :c] = M
         v = base[1::2, 1::2][:r, :c]
         return v, base
+    if layout == "ro-view":
+        # a read-only view (sliding_window_view, a frozen view, DataFrame.values under pandas 3) of a buffer its owner can still write
+        base = np.ascontiguousarray(M).copy()
+        v = base.view()
+        v.flags.writeable = False
+        return v, base
     names = list(names) if names is not None else c14.NAMES[:c]
+    if layout == "df-zerocopy":
+        # a frame that wraps the caller's buffer without copying it; the caller re-uses the buffer (writes through numpy, which
+        # pandas' copy-on-write bookkeeping cannot see)
+        base = np.ascontiguousarray(M).copy()
+        return pd.DataFrame(base, columns=names, copy=False), base
     if layout == "df-single":
         d = pd.DataFrame(M.copy(), columns=names)
         return d, d
@@ -136,6 +147,11 @@ def self_test():
     scribble(base)
     if not (a == GARBAGE).all():
         raise core.Infra("strided view not overwritten")
+    for lay in ("ro-view", "df-zerocopy"):
+        a, base = make(lay, np.arange(6.0).reshape(3, 2))
+        scribble(base)
+        if not (np.asarray(a) == GARBAGE).all():
+            raise core.Infra(lay + ": writing the caller's buffer is not visible through the object passed: the twin runs would be blind")
 
 
 # ------------------------------------------------------------------ detectors
@@ -163,7 +179,7 @@ def layouts_for(spec):
     """`buffer` = ONE 1-D array owned by the caller, refilled with the new values before every call (so every call overwrites
     what the previous one passed); 1-D layouts exist for univariate batches (a column) and for streaming rows"""
     if spec["kind"] in c14.LAB:
-        return ("1d", "C", "series", "df-single")
+        return ("1d", "C", "series", "df-single", "ro-view")
     if spec.get("only_1d"):          # univariate twin of a multi-feature spec: the 2-D layouts are exercised there
         return (("1d", "1d-strided", "series", "df-single") if spec["mode"] == "batch"
                 else ("scalar", "0d", "1d", "buffer", "series", "df-single"))
@@ -365,7 +381,7 @@ def injector_part(ctx):
     for kind in kinds:
         shared = getattr(inj, kind)()      # one long-lived injector object serves two calls out of three (containers alternate)
         for k in range(ncalls):
-            layout = (LAYOUTS_ARR + LAYOUTS_DF)[k % 5]
+            layout = (LAYOUTS_ARR + LAYOUTS_DF)[k % len(LAYOUTS_ARR + LAYOUTS_DF)]
             n, c = int(rng.integers(6, 14)), 3
             M = np.round(rng.normal(size=(n, c)) * 4) / 4
             M[:, 2] = rng.integers(0, 3, size=n)                 # label / concept column
@@ -445,10 +461,10 @@ def injector_part(ctx):
 
 # ------------------------------------------------------------------ entry points
 def run(ctx):
-    ctx.rule = ("twins: detector (+ 1-feature versions of NNDVI, KdqTreeBatch, HDDDM, KdqTreeStreaming) x history (with drifts) x layout (C / Fortran / "
+    ctx.rule = ("twins: detector (+ 1-feature versions of NNDVI, KdqTreeBatch, HDDDM, KdqTreeStreaming) x history (with drifts) x layout (read-only view of a writable buffer / zero-copy DataFrame over a caller buffer / C / Fortran / "
                 "strided ndarray, single- / mixed-dtype DataFrame; univariate: 1-D ndarray, 1-D strided view, Series, scalar, 0-d array, refilled 1-D buffer; labels: 1-D, "
                 "2-D, Series, DataFrame) x overwrite position ('all' and every single call; quick tier: every second call for the expensive "
-                "streaming detectors, alternating parity over the two histories); injectors: 200 / 2000 random calls each over the 5 layouts; every case is non-trivial: the overwrite "
+                "streaming detectors, alternating parity over the two histories); injectors: 200 / 2000 random calls each over the 7 layouts; every case is non-trivial: the overwrite "
                 "changes every cell of the caller's object (self-tested), distinct = distinct (component, history, layout, position / call)")
     c14._reported.clear()
     self_test()
